@@ -78,6 +78,7 @@ class Table:
         self.units = []
         self.chars = []
         self.probes = []
+        self.errors = []
         for line in text.split("\n"):
             if not line:
                 continue
@@ -101,10 +102,12 @@ class Table:
                         hit = [n for n, f in TEMP_FUNCS.items()
                                if [f2b(f(b2f(p))) for p in self.probes] == u[key + "_probe"]]
                         if len(hit) != 1:
-                            raise c.BrokenTie("dump-units translator: temperature function (%s_kelvin of unit %d %s) "
-                                              "is none of the five functions transcribed in Units.v"
-                                              % (key, u["idx"], u["ids"][:1]))
-                        u[key] = hit[0]
+                            self.errors.append("dump-units translator: temperature function (%s_kelvin of unit %d %s) "
+                                               "is none of the five functions transcribed in Units.v"
+                                               % (key, u["idx"], u["ids"][:1]))
+                            u[key] = None
+                        else:
+                            u[key] = hit[0]
                 else:
                     raise c.BrokenTie("dump-units translator: unknown conversion kind %r" % r[4])
                 self.units.append(u)
@@ -153,6 +156,10 @@ def gen_table_v(tb):
 def regen_units(h):
     txt = c.harness_oneshot(h, "dump-units")
     tb = Table(txt)
+    if tb.errors:
+        e = c.BrokenTie(tb.errors[0], "; ".join(tb.errors[1:4]))
+        e.table = tb            # the implementation-level search can still run without the model
+        raise e
     changed = c.write_if_changed(GEN_FILE, gen_table_v(tb))
     if changed:
         c.log("coq/gen/UnitsTable.v regenerated (%d units, digest %s)" % (len(tb.units), tb.digest))
@@ -303,20 +310,19 @@ def resolve_impl(h, idents):
 
 # ----------------------------------------------------------------------------- table introspection (Python side)
 METRIC = [("yotta", 24), ("zetta", 21), ("exa", 18), ("peta", 15), ("tera", 12), ("giga", 9), ("mega", 6),
-          ("kilo", 3), ("hecto", 2), ("deca", 1), ("deka", 1), ("deci", -1), ("centi", -2), ("milli", -3),
+          ("kilo", 3), ("hecto", 2), ("hect", 2), ("deca", 1), ("deka", 1), ("deci", -1), ("centi", -2), ("milli", -3),
           ("micro", -6), ("nano", -9), ("pico", -12), ("femto", -15), ("atto", -18), ("zepto", -21), ("yocto", -24)]
 BINARY = [("kibi", 10), ("mebi", 20), ("gibi", 30), ("tebi", 40), ("pebi", 50), ("exbi", 60), ("zebi", 70), ("yobi", 80)]
 DIMS = [("", 1), ("square ", 2), ("cubic ", 3)]
 
 
 def prefix_pairs(tb):
-    """(prefixed identifier, base identifier, base, exponent) for every identifier `dim ++ prefix ++ rest` of a linear
-    unit such that `dim ++ rest` is an identifier of another linear unit of the same category.  Mirrors
-    Units.v:prefix_pairs (the Coq theorem is the authority; this list drives the implementation-level law)."""
+    """(prefixed identifier, base identifier, base, exponent, same linear category?) for every identifier
+    `dim ++ prefix ++ rest` (rest >= 3 bytes) of a unit such that `dim ++ rest` is an identifier of another unit.
+    Mirrors Units.v:prefix_hits (the Coq theorem is the authority; the counts are cross-checked on every run);
+    this list drives the implementation-level law."""
     out = []
     for u in tb.units:
-        if u["kind"] != "linear":
-            continue
         for ib in u["ids"]:
             i = ib.decode("utf-8")
             for dim, d in DIMS:
@@ -325,11 +331,12 @@ def prefix_pairs(tb):
                 tail = i[len(dim):]
                 for table, base in ((METRIC, 10), (BINARY, 2)):
                     for p, k in table:
-                        if tail.startswith(p) and len(tail) > len(p):
+                        if tail.startswith(p) and len(tail[len(p):].encode("utf-8")) >= 3:
                             rest = (dim + tail[len(p):]).encode("utf-8")
                             for b in tb.units:
-                                if b is not u and b["cat"] == u["cat"] and b["kind"] == "linear" and rest in b["ids"]:
-                                    out.append((i, rest.decode("utf-8"), base, k * d))
+                                if b is not u and rest in b["ids"]:
+                                    ok = b["cat"] == u["cat"] and b["kind"] == "linear" and u["kind"] == "linear"
+                                    out.append((i, rest.decode("utf-8"), base, k * d, ok))
     return out
 
 
@@ -347,6 +354,7 @@ class Laws:
         self.impl = impl
         self.res = res
         self.known_ids = known_ids          # ids of open known findings
+        self.known_dups = set()             # identifiers covered by the open finding C17-dup-ident
         self.counts = {}
         self.known_hits = {"C17-self-float": 0, "C17-dup-ident": 0}
         self.fail_count = 0
@@ -382,8 +390,12 @@ def close_enough(tb, ua_list, got_bits, want_bits, tol_ulp, temp_vals):
     return False
 
 
-def law_search(tb, impl, res, rng, tier, known_ids):
+def law_search(tb, impl, res, rng, tier, known, pool=None):
+    known_ids = {e["id"] for e in known}
     L = Laws(tb, impl, res, known_ids)
+    for e in known:
+        if e["id"] == "C17-dup-ident":
+            L.known_dups = set(e.get("identifiers", []))
     uo = unit_of(tb)
     cats = {}
     for u in tb.units:
@@ -400,14 +412,43 @@ def law_search(tb, impl, res, rng, tier, known_ids):
             L.count("identifier-resolves")
             got = rimpl[i].split("|")[0]
             if got != "OK:%d" % u["idx"]:
-                if i in dup and "C17-dup-ident" in known_ids:
+                if i in dup and i in L.known_dups:
                     L.known_hits["C17-dup-ident"] += 1
                     if not got.startswith("ERR:ambig"):
                         L.fail("an identifier listed for two units must be an ambiguity error, not a guess",
                                {"identifier": i, "resolve": rimpl[i]}, [])
+                elif i in dup:
+                    L.fail("an identifier is listed for more than one unit (neither is reachable through it)",
+                           {"identifier": i, "units": [canon(x) for x in uo[i]], "resolve": rimpl[i]},
+                           [(i, i, f2b(1.0))])
                 else:
                     L.fail("a listed identifier does not resolve to its own unit",
                            {"identifier": i, "unit": canon(u), "resolve": rimpl[i], "expected": "OK:%d" % u["idx"]}, [])
+
+    # ---- L8/L9 spellings that are not listed: the unique case-insensitive match, else an error (never a guess).
+    #      Lower-casing is the implementation's own (harness units-lower) on both sides.
+    if pool:
+        unlisted = [s0 for s0 in pool if s0 not in uo]
+        lows = c.harness_lines_resilient(impl.h, "units-lower", [c.hexs(s0) for s0 in unlisted])
+        rr = resolve_impl(impl.h, unlisted)
+        by_lower = {}
+        for u in tb.units:
+            for lo in set(u["lower"]):
+                by_lower.setdefault(lo.hex(), []).append(u)
+        for s0, lo in zip(unlisted, lows):
+            cands = by_lower.get(lo, [])
+            got = rr[s0].split("|")[0]
+            L.count("spelling-resolution")
+            if len(cands) == 1:
+                if got != "OK:%d" % cands[0]["idx"]:
+                    L.fail("a spelling that matches one unit only (case-insensitively) does not resolve to it",
+                           {"identifier": s0, "unit": canon(cands[0]), "resolve": rr[s0]}, [])
+            elif len(cands) == 0:
+                if got != "ERR:unknown":
+                    L.fail("an unknown identifier is not reported as unknown", {"identifier": s0, "resolve": rr[s0]}, [])
+            elif not got.startswith("ERR:ambig"):
+                L.fail("an ambiguous identifier (matches several units case-insensitively, none exactly) is guessed",
+                       {"identifier": s0, "candidates": [canon(x) for x in cands], "resolve": rr[s0]}, [])
 
     # ---- plan the conversion laws
     usable = lambda u: [i.decode("utf-8") for i in u["ids"] if i.decode("utf-8") not in dup]
@@ -514,17 +555,21 @@ def law_search(tb, impl, res, rng, tier, known_ids):
         L.count("cross-category-error")
         if impl.get(a, b, v) != "ERR:category":
             L.fail("units of different categories must not convert", {}, [(a, b, v)])
-    # ---- L6 prefix ratios: convert(1, prefixed, base) = base^k within 2 ulp (two roundings)
+    # ---- L6 prefix ratios: a prefixed name converts to its base name, and convert(1, prefixed, base) = base^k
+    #      within 2 ulp (two roundings)
     pp = prefix_pairs(tb)
     one = f2b(1.0)
-    impl.prefetch([(i, r, one) for i, r, base, k in pp if i not in dup and r not in dup])
-    for i, r, base, k in pp:
+    impl.prefetch([(i, r, one) for i, r, base, k, ok in pp if i not in dup and r not in dup])
+    for i, r, base, k, ok in pp:
         if i in dup or r in dup:
             continue
         L.count("prefix-ratio")
         got = ok_bits(impl.get(i, r, one))
         want = f2b(float(base) ** k) if base == 2 else f2b(float("1e%d" % k))
-        if got is None or ulp_dist(got, want) > 2:
+        if got is None:
+            L.fail("a prefixed name and its base name do not convert (different categories?)",
+                   {"prefixed": i, "base": r}, [(i, r, one)])
+        elif ulp_dist(got, want) > 2:
             L.fail("ratio between a prefixed name and its base name is not the prefix's power",
                    {"prefixed": i, "base": r, "expected": "%d^%d" % (base, k)}, [(i, r, one)])
     L.prefix_pairs = len(pp)
@@ -653,16 +698,34 @@ BUILTIN_ARGS = [("N3ff0000000000000", "ANum (num_of_bits 0x3ff0000000000000)"), 
                 ("N7ff8000000000000", "ANum (num_of_bits 0x7ff8000000000000)")]
 
 
-def run_builtin_stream(h, res):
+def run_builtin_stream(h, res, tb):
     cases = [(a, b, d) for a in BUILTIN_ARGS for b in BUILTIN_ARGS for d in BUILTIN_ARGS]
     outs = c.harness_lines_resilient(h, "units-builtin", ["\t".join(x[0] for x in cs) for cs in cases])
+    scans = ["show_Z (Z.of_nat (List.length (prefix_hits metric_prefixes)))",
+             "show_Z (Z.of_nat (List.length (prefix_hits binary_prefixes)))",
+             "show_Z (Z.of_nat (List.length dup_idents))",
+             'join_comma (map hex_of_string dup_idents)']
     try:
-        mo = c.coq_eval_batch(REQS, "", ["show_builtin (%s) (%s) (%s)" % tuple(x[1] for x in cs) for cs in cases], "c17b")
+        mo = c.coq_eval_batch(REQS, "", ["show_builtin (%s) (%s) (%s)" % tuple(x[1] for x in cs) for cs in cases] + scans,
+                              "c17b")
     except c.BrokenTie as e:
         res.tie_broken(e.what, e.detail)
-        mo = [None] * len(cases)
+        mo = [None] * (len(cases) + len(scans))
     mism = [(cs, m, o) for cs, m, o in zip(cases, mo, outs) if m is not None and m != o]
-    return {"cases": len(cases), "mism": mism}
+    sc = mo[len(cases):]
+    out = {"cases": len(cases), "mism": mism, "coq_prefix_pairs": None, "coq_dup_idents": None}
+    if all(x is not None for x in sc):
+        out["coq_prefix_pairs"] = int(sc[0]) + int(sc[1])
+        out["coq_dup_idents"] = sorted(bytes.fromhex(x).decode("utf-8") for x in sc[3].split(",") if x)
+        py_dup = sorted(i for i, us in unit_of(tb).items() if len(us) > 1)
+        if out["coq_prefix_pairs"] != len(prefix_pairs(tb)):
+            res.tie_broken("the Python mirror of Units.v:prefix_hits (drives the implementation-level prefix law) counts %d "
+                           "pairs, Coq counts %d" % (len(prefix_pairs(tb)), out["coq_prefix_pairs"]))
+        if out["coq_prefix_pairs"] == 0:
+            res.tie_broken("C17_prefix_ratio_* are vacuous: no prefixed/base identifier pair found in the table")
+        if out["coq_dup_idents"] != py_dup:
+            res.tie_broken("Python and Coq disagree on the identifiers listed for two units", "%r vs %r" % (py_dup, out["coq_dup_idents"]))
+    return out
 
 
 # ----------------------------------------------------------------------------- known findings
@@ -701,15 +764,24 @@ def main(argv):
     rng = c.Rng(seed)
     try:
         h = c.build_harness()
-        tb = regen_units(h)
     except c.BrokenTie as e:
         res.tie_broken(e.what, e.detail)
         return res.finish()
     if replay:
         return do_replay(h, replay)
     known = c.open_known(PID)
-    known_ids = {e["id"] for e in known}
     impl = Impl(h)
+    try:
+        tb = regen_units(h)
+    except c.BrokenTie as e:
+        res.tie_broken(e.what, e.detail)
+        tb = getattr(e, "table", None)
+        if tb is not None:
+            # the model cannot be generated: look for a concrete failing input on the implementation alone
+            L = law_search(tb, impl, res, rng, tier, known, ident_pool(tb, rng, tier))
+            res.coverage["evaluations"] = impl.calls
+            res.streams["IMPL-LAWS"] = {"checked": L.counts, "failures": L.fail_count}
+        return res.finish()
 
     import time
     t0 = time.time()
@@ -740,14 +812,14 @@ def main(argv):
                       {"kind": "units-law", "law": "no panic; built-in = units::convert", "detail": {"raw": i},
                        "calls": [[a, b, "%016x" % v, repr(b2f(v))] for v in us["mags"][(a, b)]], "observed": [i]})
     c.log("UNITS stream %.1fs" % (time.time() - t0)); t0 = time.time()
-    bs = run_builtin_stream(h, res)
+    bs = run_builtin_stream(h, res, tb)
     if bs["mism"]:
         cs, m, o = bs["mism"][0]
         res.tie_broken("correspondence C17/BUILTIN: model and implementation disagree on %d of %d argument tuples"
                        % (len(bs["mism"]), bs["cases"]), "first: %s model=%s impl=%s" % ([x[0] for x in cs], m, o))
 
     # ---- the laws on the implementation alone (always run)
-    L = law_search(tb, impl, res, rng, tier, known_ids)
+    L = law_search(tb, impl, res, rng, tier, known, rs["pool"])
     c.log("BUILTIN stream + law search %.1fs" % (time.time() - t0))
 
     # ---- known findings: re-run each witness
@@ -779,6 +851,8 @@ def main(argv):
                             "by_kind(pairs,agree)": us["by_tag"]}
     res.streams["RESOLVE+LOWER"] = {"identifiers": len(rs["pool"]), "mismatches": len(rs["mism"]), "impl_answers": rs["kinds"]}
     res.streams["BUILTIN"] = {"argument_tuples": bs["cases"], "mismatches": len(bs["mism"])}
+    res.coverage["exhaustive_table_theorems"]["prefix_pairs_in_theorems"] = bs["coq_prefix_pairs"]
+    res.coverage["exhaustive_table_theorems"]["identifiers_listed_for_two_units"] = bs["coq_dup_idents"]
     res.streams["IMPL-LAWS"] = {"checked": L.counts, "known_finding_hits": L.known_hits, "prefix_pairs": L.prefix_pairs,
                                 "impl_calls": impl.calls, "failures": L.fail_count}
     res.assumptions = [
